@@ -165,6 +165,11 @@ func c02c(c *Ctx, v *variants.Variant) {
 		}
 		n++
 		if key == "parser.pt" && w.Func == "read" && w.Kind != "elem" {
+			// the next position as a function of the current one and the input alone (p.pt = next(p.pt, p.data)) is
+			// the same accounting given a name: its body is checked, expanded, by the accounting rule of read()
+			if readInstallsNextPosition(v) {
+				continue
+			}
 			bad = append(bad, v.Where(w.Pos)+": read() replaces p.pt as a whole ("+w.Text+")")
 			continue
 		}
@@ -360,7 +365,31 @@ func c02Read(c *Ctx, v *variants.Variant, rule string) {
 	paths := c.vnorm(v).without("addErr", "addErrAt").normPaths(fd)
 	var bad []string
 	const dec = "utf8.DecodeRune(p.data[p.pt.offset:])"
-	for _, p := range paths {
+	for _, p0 := range paths {
+		// what was stored into p.pt.rn / p.pt.w is what a later test of those fields reads; a position handed through a
+		// helper comes back as itself
+		p := make(bpath, 0, len(p0))
+		val := map[string]string{}
+		for _, e := range p0 {
+			switch e.Kind {
+			case "set":
+				if e.Text == "p.pt=p.pt" {
+					continue
+				}
+				for _, f := range []string{"p.pt.rn", "p.pt.w"} {
+					if strings.HasPrefix(e.Text, f+"=") {
+						val[f] = strings.TrimPrefix(e.Text, f+"=")
+					}
+				}
+			case "+":
+				ne := e
+				for f, x := range val {
+					ne.Text = replaceOperand(ne.Text, f, x)
+				}
+				e = ne
+			}
+			p = append(p, e)
+		}
 		iAdv := p.evIndex("set", 0, func(s string) bool { return s == "p.pt.offset+=p.pt.w" })
 		iDec := p.evIndex("call", 0, func(s string) bool { return s == dec })
 		if iAdv < 0 || iDec < 0 || iAdv > iDec {
@@ -733,5 +762,59 @@ func c02dBalance(c *Ctx, a *absVariant) {
 			continue
 		}
 		r.Check(bad == "", "C02-d", "T."+fn+":variable-stack-balanced", a.V.Name, a.V.Where(res.Fn.Pos()), fmt.Sprintf("%d abstract exits, variable stack as deep as at entry", n), bad)
+	}
+}
+
+// readInstallsNextPosition: every whole-struct assignment to p.pt in read() has the form p.pt = f(p.pt, p.data) with f a
+// plain function of the runtime (no receiver): the new position depends on the old one and the input only.
+func readInstallsNextPosition(v *variants.Variant) bool {
+	fd := v.Func("parser", "read")
+	if fd == nil || fd.Body == nil {
+		return false
+	}
+	recv := recvName(fd)
+	n, ok := 0, true
+	ast.Inspect(fd.Body, func(nd ast.Node) bool {
+		as, isAs := nd.(*ast.AssignStmt)
+		if !isAs || len(as.Lhs) != 1 || len(as.Rhs) != 1 || nospace(as.Lhs[0]) != recv+".pt" {
+			return true
+		}
+		n++
+		ce, isCall := as.Rhs[0].(*ast.CallExpr)
+		if !isCall {
+			ok = false
+			return true
+		}
+		id, isID := ce.Fun.(*ast.Ident)
+		if !isID || v.Func("", id.Name) == nil || len(ce.Args) != 2 {
+			ok = false
+			return true
+		}
+		args := map[string]bool{nospace(ce.Args[0]): true, nospace(ce.Args[1]): true}
+		if !args[recv+".pt"] || !args[recv+".data"] {
+			ok = false
+		}
+		return true
+	})
+	return ok && n > 0
+}
+
+// replaceOperand replaces the operand `field` (delimited by non-identifier characters) in a condition text.
+func replaceOperand(text, field, by string) string {
+	out := ""
+	for {
+		i := strings.Index(text, field)
+		if i < 0 {
+			return out + text
+		}
+		end := i + len(field)
+		before := i == 0 || !isIdentByte(text[i-1]) && text[i-1] != '.'
+		after := end == len(text) || !isIdentByte(text[end]) && text[end] != '.'
+		if before && after {
+			out += text[:i] + by
+		} else {
+			out += text[:end]
+		}
+		text = text[end:]
 	}
 }
